@@ -1,7 +1,7 @@
 """C13 -- A generated converter equals the field-wise construction the linking rules fix.
 
-Generated (pure data): a set of logical models (pairs related by renaming / dropping / adding / nesting fields, six
-kinds), a conversion recipe built from the public providers (link / link_constant / link_function / coercer /
+Generated (pure data): a set of logical models (pairs related by renaming / dropping / adding / nesting fields; dataclass,
+attrs, NamedTuple, TypedDict, pydantic, plain __init__ class as destination; generic nested pairs), a conversion recipe built from the public providers (link / link_constant / link_function / coercer /
 allow_unlinked_optional / forbid_unlinked_optional) with unambiguous predicates, an entry point (get_converter,
 impl_converter with a generated stub, convert; module level or ConversionRetort(...).extend(...)), extra parameters
 (positional-only / positional / keyword-only, with defaults), a call plan and the values.
@@ -21,7 +21,9 @@ Oracle: an independent reference of docs/conversion/tutorial.rst + extended-usag
     scalar -> other scalar without coercer) => ProviderNotFoundError;
   * impl_converter: inspect.signature, __name__, __doc__ equal the stub's; the call plan (positional / keyword /
     omitted-with-default) is bound with the *stub's* signature and must behave accordingly;
-  * get_converter(name=...) sets __name__; the source object and the extra arguments are unchanged afterwards.
+  * get_converter(name=...) sets __name__; the source object and the extra arguments are unchanged afterwards;
+  * a call rejected by the stub's signature raises TypeError; link_constant factories are called once per built field.
+Details, unspecified zones, findings and sensitivity experiments: /verif/notes/C13.md.
 """
 from __future__ import annotations
 
